@@ -28,6 +28,7 @@ type Case struct {
 	Graph  *gg.Case   `json:"graph,omitempty"`
 	Chan   *ChanCase  `json:"chan,omitempty"`
 	Family []*gg.Case `json:"family,omitempty"` // one graph under every combination of branch outcomes
+	Rerun  []*gg.Val  `json:"rerun,omitempty"`  // further inputs on which the SAME compiled runnable of Graph is invoked again
 }
 
 type ChanOp struct {
@@ -105,6 +106,18 @@ func generate(r *lib.Rng, tier string, i int) *Case {
 	switch x := r.Intn(30); {
 	case x < 4:
 		return &Case{Chan: genChan(r, tier)}
+	case x == 9 || x == 17 || x == 26:
+		// one compiled runnable, several runs
+		var c *gg.Case
+		switch x {
+		case 9:
+			c = gg.GenDAG(r, o)
+		case 17:
+			c = gg.GenWorkflow(r, o)
+		default:
+			c = genX(r, r.Chance(1, 2), o.MaxNodes)
+		}
+		return &Case{Graph: c, Rerun: genRerunInputs(r, c.Input)}
 	case x >= 27:
 		return &Case{Family: genFamily(r, o, true, famLimit)}
 	case x >= 24:
@@ -342,7 +355,10 @@ func (engine) Run(c any) lib.Result {
 		return runFamily(cs.Family)
 	}
 	g := cs.Graph
-	obs := gg.Run(g, gg.RunOpts{})
+	if len(cs.Rerun) > 0 {
+		return runRerun(g, cs.Rerun)
+	}
+	obs := runResampled(g)
 	res := lib.Result{Obs: obs, Tags: append(gg.Tags(g, obs), "kind:graph")}
 	if obs.Class == "compile" && strings.Contains(obs.ErrMsg, "DAG invalid") && strings.Contains(obs.ErrMsg, "has loop") {
 		// validateDAG rejected the graph: the model's validate_dag must reject it too
@@ -386,7 +402,7 @@ func runFamily(fam []*gg.Case) lib.Result {
 	var terms []string
 	inModel := true
 	for _, g := range fam {
-		obs := gg.Run(g, gg.RunOpts{})
+		obs := runResampled(g)
 		obsAll = append(obsAll, obs)
 		if obs.Class == "compile" || obs.Class == "budget" {
 			inModel = false
